@@ -461,6 +461,56 @@ class Fn:
             return f"tls:{rv['def']}"
         return f"other:{rv.get('dbg','?')[:60]}"
 
+    # ---------------------------------------------------------------- variable-level rendering
+    def vexpr_operand(self, op, depth=10):
+        """like expr_operand, but a named user variable (or parameter) is an opaque leaf `$name`: used for
+        rules about accumulators that are mutated through `&mut` calls (`mask |= ..`), whose flow-insensitive
+        value expression is only their initialiser. Constants are rendered by path, without their value."""
+        if op["k"] == "const":
+            return re.sub(r"=\-?\d+$", "", self.expr_operand(op))
+        return self.vexpr_place(op["pl"], depth)
+
+    def vexpr_place(self, pl, depth=10):
+        l = pl["l"]
+        if self.upvars and pl["p"] and l == 1:
+            return self.expr_place(pl, 2)      # captured variable: `up:<name>`
+        name = self.varnames.get(l)
+        if name or 1 <= l <= self.argc:
+            return self._apply_proj("$" + (name or str(l)), pl["p"])
+        if depth <= 0:
+            return self._apply_proj(f"_{l}", pl["p"])
+        ds = self.defs().get(l, [])
+        if len(ds) != 1:
+            return self._apply_proj(f"_{l}", pl["p"])
+        d = ds[0]
+        if d[0] == "call":
+            t = d[2]
+            e = strip_generics(t["callee"]) + "(" + ", ".join(self.vexpr_operand(a, depth - 1) for a in t["args"]) + ")"
+        else:
+            e = self.vexpr_rvalue(d[3]["rv"], depth - 1)
+        return self._apply_proj(e, pl["p"])
+
+    def vexpr_rvalue(self, rv, depth=10):
+        k = rv["k"]
+        if k == "use":
+            return self.vexpr_operand(rv["op"], depth)
+        if k in ("ref", "rawptr"):
+            return self.vexpr_place(rv["pl"], depth)
+        if k == "cast":
+            return self.vexpr_operand(rv["op"], depth)
+        if k == "binop":
+            return f"({self.vexpr_operand(rv['a'], depth)} {rv['op']} {self.vexpr_operand(rv['b'], depth)})"
+        if k == "unop":
+            return f"{rv['op']}({self.vexpr_operand(rv['a'], depth)})"
+        if k == "discr":
+            return f"discr({self.vexpr_place(rv['pl'], depth)})"
+        if k == "agg":
+            return self.expr_rvalue(rv, depth)
+        return self.expr_rvalue(rv, depth)
+
+    def vexpr_call(self, t, depth=10):
+        return strip_generics(t["callee"]) + "(" + ", ".join(self.vexpr_operand(a, depth) for a in t["args"]) + ")"
+
     # origins: the leaves of the provenance tree of an operand, as a set of strings
     def origins_local(self, l, seen=None):
         """set of leaf origins: 'arg:<name>[.proj]', 'const:<repr>', 'call:<callee>@<bb>'"""
